@@ -580,6 +580,36 @@ def solver_postconditions(ctx, rule):
                         tsrc = unparse(tests[0].test, 400)
                         if 'abs(' in tsrc and sol_stmt.targets[0].id in tsrc:
                             res_ok, res_fact = True, f"for {unparse(stmt.target)} in {show(it_s)}: if {tsrc}: raise"
+    if not res_ok:
+        # the same test written as `if any(abs(..) > tol for row, rhs in zip(a, b)): raise`
+        for stmt in walk_no_nested(cs_.node):
+            if not (isinstance(stmt, ast.If) and ffs.seq(stmt) > ffs.seq(sol_stmt) and
+                    all(dominates(stmt, bb[1]) or _dominates_nested(stmt, bb[1]) for bb in builds)):
+                continue
+            t = stmt.test
+            if isinstance(t, ast.Call) and isinstance(t.func, ast.Name) and t.func.id == 'any' and t.args and \
+                    isinstance(t.args[0], (ast.GeneratorExp, ast.ListComp)) and len(t.args[0].generators) == 1 and \
+                    not t.args[0].generators[0].ifs:
+                g = t.args[0]
+                it_r = ffs.resolve(g.generators[0].iter, ffs.state_before(stmt))
+
+                def rows_of(e):
+                    e = strip_refs(e)
+                    if e is full_matrix or strip_refs(e) is strip_refs(full_matrix):
+                        return True
+                    if isinstance(e, ast.Call) and isinstance(e.func, ast.Name):
+                        if e.func.id == 'range' and len(e.args) == 1:
+                            a0 = strip_refs(e.args[0])
+                            return isinstance(a0, ast.Call) and getattr(a0.func, 'id', '') == 'len' and \
+                                (a0.args[0] is full_matrix or strip_refs(a0.args[0]) is strip_refs(full_matrix))
+                        if e.func.id in ('zip', 'enumerate'):
+                            return any(rows_of(a) for a in e.args)
+                    return False
+                esrc = unparse(g.elt, 300)
+                raises = [r for r in ast.walk(stmt) if isinstance(r, ast.Raise)]
+                if rows_of(it_r) and 'abs(' in esrc and sol_stmt.targets[0].id in esrc and raises and \
+                        all('ValueError' in unparse(r) for r in raises):
+                    res_ok, res_fact = True, f"if any({esrc[:60]} for .. in {show(it_r, 40)}): raise"
     ctx.ob(rule, cs_, sol_stmt.lineno, 'residual test over all constraint rows (not only the solved ones)', res_ok,
            fact=res_fact, why='an over-determined request whose extra rows are violated is accepted',
            key='residual test incomplete')
